@@ -375,6 +375,20 @@ func registerIntrinsics(e *Engine) {
 		t := a[0].(*Term)
 		return tFCmp(OpFEq, t, tFTrunc(t))
 	})
+	// vStubReturn(funcName, results...): from now on calls of funcName are not executed; they are
+	// logged (name + rendered arguments) and answer with the canned results
+	reg("vStubReturn", func(x *Exec, a []Value) Value {
+		name := cstr(x, a[0])
+		var res []Value
+		for _, r := range sliceElems(a[1]) {
+			res = append(res, r)
+		}
+		if x.stubRet == nil {
+			x.stubRet = map[string][]Value{}
+		}
+		x.stubRet[name] = res
+		return nil
+	})
 	reg("vCallLog", func(x *Exec, a []Value) Value { return mkStrSlice(x.calllog) })
 
 	registerLibModels(e)
